@@ -104,11 +104,13 @@ def judge(us_fmt_order, ea, eb, got, with_time):
 
 
 def group_task(task):
-    bindir, units, fmt, group, with_time, dom_ok = task
+    bindir, units, fmt, group, with_time, dom_ok = task[:6]
+    mix = task[6] if len(task) > 6 else "ymd"      # notation of the second operand (the first is ymd)
     sh = Shard()
     texts = [dr.text(e, with_time) for e in group]
+    ptexts = texts if mix == "ymd" else [dr.text(e, with_time, mix) for e in group]
     for i, ea in enumerate(group):
-        key, outs, s2 = dr.row_task((bindir, i, fmt, texts[i], texts))
+        key, outs, s2 = dr.row_task((bindir, i, fmt, texts[i], ptexts))
         sh.merge(s2)
         for j, eb in enumerate(group):
             got = outs[j]
@@ -127,15 +129,15 @@ def group_task(task):
             c = (units, "eq" if ea == eb else "+" if eb > ea else "-", "+".join(bcls) or "plain", "dt" if with_time else "d")
             verdict = judge(units, ea, eb, got, with_time)
             if verdict is None:
-                sh.ok("refine", c)
+                sh.ok("refine", c if mix == "ymd" else c + ("2nd=" + mix,))
             else:
                 febult = ":febult" if (D.m == 2 and D.d == cal.mdays(D.y, 2)) else ""
                 if not febult and D.iwd == 7 and D.iw == dur.iso_weeks_in_year(D.iy):
                     febult = ":isoyrend"
                 sig = "refine:%s:%s:%s:%s%s" % ("".join(u for u in UNITS if u in units), verdict[0],
                                                   "neg" if eb < ea else "pos", "dt" if with_time else "d", febult)
-                sh.bad("refine", sig, "ddiff %s %s -f %r: %s" % (texts[i], texts[j], fmt, verdict[1]),
-                       dict(argv=["ddiff", texts[i], texts[j], "-f", fmt], observed=got), cls=c)
+                sh.bad("refine", sig + ("" if mix == "ymd" else ":2nd=" + mix), "ddiff %s %s -f %r: %s" % (texts[i], ptexts[j], fmt, verdict[1]),
+                       dict(argv=["ddiff", texts[i], ptexts[j], "-f", fmt], observed=got), cls=c + (mix,))
     sh.sample(dict(cmd="ddiff %s %s -f '%s'" % (texts[0], texts[-1], fmt)), cap=1)
     return sh
 
@@ -156,7 +158,8 @@ def main(tier, seed):
             variant += 1
             with_time = not (date_only_ok and g % 2 == 1)
             grp = dr.make_group(rng, with_time, size=gsize)
-            tasks.append((bindir, us, fmt_of(us, rng, variant), grp, with_time, True))
+            # every fourth group with the second operand in another notation than the first
+            tasks.append((bindir, us, fmt_of(us, rng, variant), grp, with_time, True, ["ymd", "ymd", "ymd", ["ywd", "ymcw", "yd"][variant % 3]][variant % 4]))
         # one permuted order per subset
         if len(us) > 1:
             perm = list(us)
